@@ -257,7 +257,7 @@ fn multisets(kinds: usize, size: usize, f: &mut dyn FnMut(&[usize])) {
 
 pub fn run(tier: Tier) -> Report {
     let rep = Report::new("C17", tier);
-    rep.set_rule("every multiset of <= K stream items over Q queries x T tracks x distances {.25,.5,1,2,None} (quick: 2x2, K=4; thorough: 3x3 K=4 and 2x2 K=6), plus streams in which queries and tracks share ONE id space {1,2,3} (every ordered pair q != t x distances {.25,.5,1}, K=4 quick / 5 thorough), every permutation of streams of <= 4 items (rotations, reversal and adjacent transpositions of the canonical order for 5-6 items), N in {1,2,3}, min_votes in {1,2}, max_distance in {.5,.75,1,1.5,2,10} (three of them equal to a distance of the menu: 'not exceeding' is decided at equality); TopN and BestFit judged against the counting rules (also on streams with 1..40 tracks per query, N up to 10), results of tie-free streams required identical across orders; VisualVoting and Hungarian voting judged structurally (Hungarian: weights {absent, 0 (gated out, the query still appears), .2, .5, .9}). Non-trivial = at least two items.");
+    rep.set_rule("every multiset of <= K stream items over Q queries x T tracks x distances {.25,.5,1,2,None} (quick: 2x2, K=4; thorough: 3x3 K=4 and 2x2 K=6), plus streams in which queries and tracks share ONE id space {1,2,3} (every ordered pair q != t x distances {.25,.5,1}, K=4 quick / 5 thorough), every permutation of streams of <= 4 items (rotations, reversal and adjacent transpositions of the canonical order for 5-6 items), N in {1,2,3}, min_votes in {1,2}, max_distance in {.5,.75,1,1.5,2,10} (three of them equal to a distance of the menu: 'not exceeding' is decided at equality); TopN and BestFit judged against the counting rules (also on streams with 1..40 tracks per query, N up to 10), results of tie-free streams required identical across orders; VisualVoting and Hungarian voting judged structurally (Hungarian: weights {absent, 0 (gated out, the query still appears), .2, .5, .9}; plus 2x2 matrices over weights 5 and 14 millionths apart in every arrival order). Non-trivial = at least two items.");
     let dmenu: Vec<Option<f32>> = vec![Some(0.25), Some(0.5), Some(1.0), Some(2.0), None];
     let params: Vec<(usize, usize, f32)> = {
         let mut p = vec![];
@@ -487,6 +487,41 @@ pub fn run(tier: Tier) -> Report {
                 }
             });
         }
+    }
+    // Hungarian, near ties that are not ties: 2x2 matrices over weights a few millionths apart (the voting weights
+    // resolve one millionth), every arrival order: the better assignment is found in every order
+    {
+        let near: Vec<Option<f32>> = vec![Some(0.5), Some(0.500005), Some(0.500014), Some(0.6)];
+        let total = near.len().pow(4);
+        par_for(total, 16, |idx| {
+            let mut k = idx;
+            let mut w = vec![vec![None; 2]; 2];
+            for cell in 0..4 {
+                w[cell / 2][cell % 2] = near[k % near.len()];
+                k /= near.len();
+            }
+            let case = hung::Case { thr: 0.3, weights: w, declared_c: 2, declared_t: 3 };
+            let s = case.stream();
+            let mut first: Option<Vec<(u64, u64)>> = None;
+            for p in permutations(s.len()) {
+                let o: Vec<_> = p.iter().map(|i| s[*i]).collect();
+                evals.fetch_add(1, Ordering::Relaxed);
+                let v = hung::judge(&case, &o);
+                if !v.ok {
+                    rep.violation(Violation { key: format!("{}/near-tie", v.key), what: v.what, replay: json!({"engine":"hungarian","family":"near ties","weights":format!("{:?}", case.weights)}) });
+                } else {
+                    let mut a = v.assignment.clone();
+                    a.sort();
+                    if let Some(f) = &first {
+                        if *f != a && unique_optimum(&case) {
+                            rep.violation(Violation { key: "hungarian/order-dependent/near-tie".into(), what: format!("{f:?} vs {a:?}"), replay: json!({"engine":"hungarian","family":"near ties","weights":format!("{:?}", case.weights)}) });
+                        }
+                    } else {
+                        first = Some(a);
+                    }
+                }
+            }
+        });
     }
     let e = evals.load(Ordering::Relaxed);
     rep.add(e, e, e, e);
